@@ -1327,10 +1327,11 @@ func runC03(c *Ctx) {
 		c03DupRandom(c)
 	}
 	c03HistSystematic(c)
+	c03HistPreOps(c)
 	for i := c.Budget(50, 5000); i > 0; i-- {
 		c03HistSession(c)
 	}
-	for i := c.Budget(260, 40000); i > 0; i-- {
+	for i := c.Budget(220, 40000); i > 0; i-- {
 		c03RandomList(c, "pool", false)
 	}
 	for i := c.Budget(60, 8000); i > 0; i-- {
